@@ -173,8 +173,12 @@ class ResourceClass(object):
         if num_inv:
             raise exception.ResourceClassInUse(resource_class=name)
 
+        # The identifier was looked up by name before this transaction: a
+        # racing request may have removed or renamed the class since (and
+        # the identifier may already belong to another class).
         res = context.session.query(models.ResourceClass).filter(
-            models.ResourceClass.id == _id).delete()
+            models.ResourceClass.id == _id,
+            models.ResourceClass.name == name).delete()
         if not res:
             raise exception.NotFound()
 
@@ -199,6 +203,9 @@ class ResourceClass(object):
     def _save(context, id, name, updates):
         db_rc = context.session.query(models.ResourceClass).filter_by(
             id=id).first()
+        if db_rc is None:
+            # Deleted by another request since it was read.
+            raise exception.NotFound()
         db_rc.update(updates)
         try:
             db_rc.save(context.session)
